@@ -833,7 +833,9 @@ func (ms *monitorState) bookHolds(kt *keyTrack, after *MKey, ptrs []*Lock, now t
 	// timed out or was cancelled): the one behind it is the head now and may be admissible where the
 	// departed one was not ("at every quiescent moment no key has a live queued request at the head
 	// of its queue that could be admitted")
-	if len(kt.mk.Waiters) > 0 && len(after.Waiters) > 0 && after.locked() == kt.mk.locked() && after.Waiters[0].Req != kt.mk.Waiters[0].Req {
+	// (on a key that is held: the requests queued on a free key are the ones that wait for it to be
+	// taken, and are not served because another of them gives up)
+	if len(kt.mk.Waiters) > 0 && len(after.Waiters) > 0 && after.locked() > 0 && after.locked() == kt.mk.locked() && after.Waiters[0].Req != kt.mk.Waiters[0].Req {
 		gone := true
 		for _, wt := range after.Waiters {
 			if wt.Req == kt.mk.Waiters[0].Req {
